@@ -13,7 +13,7 @@ CHECKS = {
          "Needs hook H1 (re-export of the private inference module). The reference unifier and the kind-error injections are the harness's own; the error-kind comparison relies on the fixed order of compile phases.",
          "DESIGN.md §4 C07"),
  "C10": ("exhaustive small-scope enumeration of import digraphs with sampled decorations + random graphs; call-sequence invariants on a recording Loader",
-         "Exploration with an exhaustive core: every import digraph (self loops included) on <= 3 (quick) / <= 4 (thorough) modules, each under 8 decorations (sub-directories, ./ and x/../ spellings, duplicate uses, missing targets, permuted uses, use statements before / between / after the other statements), is loaded through a recording in-memory Loader that wraps the real parse/compile; reachable set, cycles and missing targets are computed independently and the call log must show exactly-once load/parse/compile in dependency order, the right error kind otherwise, and the same document after respelling and reordering.",
+         "Exploration with an exhaustive core: every import digraph (self loops included) on <= 3 (quick) / <= 4 (thorough) modules, each under 8 decorations (sub-directories, ./ and x/../ spellings, duplicate uses, missing targets, permuted uses, use statements before / between / after the other statements), is loaded through a recording in-memory Loader that wraps the real parse/compile; reachable set, cycles and missing targets are computed independently and the call log must show exactly-once load/parse/compile in dependency order, the right error kind otherwise, and the same document after respelling and reordering. Graphs are decorated with two unqualified imports declaring the same name (known finding F21), file names with blanks / non-ASCII letters, and one case in a hundred goes through the real oal-cli on real files.",
          "Trusts the recording Loader wrapper and URL normalisation as the definition of 'the same file'. When a graph has both a cycle and a missing import either error is accepted.",
          "DESIGN.md §4 C10"),
  "C11": ("generated programs with random trivia, mutants and arbitrary text; tiling / re-lex / leaf-sequence / hull / span-bounds invariants",
@@ -21,15 +21,15 @@ CHECKS = {
          "Trusts TokenList's public cursor API as the observation of the token stream, and the harness's own span arithmetic.",
          "DESIGN.md §4 C11"),
  "C12": ("exhaustive short token sequences + random/nested token lists; differential cached vs. uncached parse, calibrated linear work bound",
-         "Exploration with an exhaustive core: all token sequences up to length 4 (quick) / 6 (thorough) over a 15-kind alphabet are parsed with and without the memo table from three entry points and the structural dumps compared; beyond that, random sequences, nesting to depth 1000 and generated programs must stay under 64 token reads per token (observed maximum ~21); flat inputs of 40 000 - 90 000 tokens must not cost more than 4x the thread CPU time per token of their first tenth (a memo table that degrades with its size does not show in the read counter).",
+         "Exploration with an exhaustive core: all token sequences up to length 4 (quick) / 6 (thorough) over a 15-kind alphabet are parsed with and without the memo table from three entry points and the structural dumps compared; beyond that, random sequences, nesting to depth 1000 and generated programs must stay under 64 token reads per token (observed maximum ~21); a mixed-nesting phase draws every level from 22 kinds of level (with and without brackets); the public entry point oal_syntax::parse is bounded by CPU time on the nested text templates; flat inputs of 40 000 - 90 000 tokens must not cost more than 4x the thread CPU time per token of their first tenth (a memo table that degrades with its size does not show in the read counter).",
          "Needs hook H2 (Context::work). The uncached reference parse is only feasible for nesting <= 4 or < 11 tokens; the linear constant is calibrated on the unchanged tree with 3x head-room. The CPU-time comparison is relative (two measurements in one process, best of three each) and additionally needs > 8 us per token (unchanged tree: 1.1 us).",
          "DESIGN.md §4 C12"),
  "C15": ("model-based history testing of the real oal-lsp: generated protocol-valid open/change/close/request histories vs. a fresh server handed the final texts",
-         "Exploration: histories of up to 25 operations over a 1-3 file workspace with raw edits at arbitrary UTF-16 ranges (clamped columns, lines beyond the end, end-of-file insertions, CRLF, astral characters) and meaningful edits are played to the real server while the harness keeps its own model of every open document; afterwards the published diagnostics per URI and the answers to definition / references / prepareRename at dozens of positions must equal those of a fresh server given the model's final texts, and the server must have survived every message.",
+         "Exploration: histories of up to 25 operations over a 1-3 file workspace with raw edits at arbitrary UTF-16 ranges (clamped columns, lines beyond the end, end-of-file insertions, CRLF, astral characters) and meaningful edits are played to the real server while the harness keeps its own model of every open document; afterwards the published diagnostics per URI and the answers to definition / references / prepareRename at dozens of positions must equal those of a fresh server given the model's final texts, and the server must have survived every message. Histories can also delete the file of a module that is not open. Next to the differential oracle an absolute one: diagnostics are published exactly when the in-process pipeline finds the final program at fault.",
          "Histories are protocol-valid; disk files do not change; the 1 s idle refresh is not exercised (every comparison is preceded by a request).",
          "DESIGN.md §4 C15"),
  "C16": ("exhaustive small-scope enumeration of texts x offsets x positions against an independent reference conversion, plus random long texts",
-         "Exploration with an exhaustive core: every text of <= 5 (quick) / 6 (thorough) units over {a, 2-, 3-, 4-byte char, LF, CRLF}, every boundary offset, every position incl. out-of-range ones and every span is converted by the real functions and by a reference written from the LSP text; 200+ million conversions per quick run. A server door sends texts with syntax errors to the real oal-lsp (also closing an unsaved document over a different file) and requires every published range to select the error's span in the client's text.",
+         "Exploration with an exhaustive core: every text of <= 5 (quick) / 6 (thorough) units over {a, 2-, 3-, 4-byte char, LF, CRLF}, every boundary offset, every position incl. out-of-range ones and every span is converted by the real functions and by a reference written from the LSP text; 200+ million conversions per quick run. A server door sends texts with syntax errors to the real oal-lsp (also closing an unsaved document over a different file) and requires every published range to select the error's span in the client's text; it also sends two ranged changes in one notification, asks for a definition in another document whose text differs, and for references to a use at column 0.",
          "Needs hook H3 (public wrappers of the pub(crate) functions). Offsets strictly inside a CRLF and columns inside a surrogate pair are outside the domain (the protocol gives them no meaning).",
          "DESIGN.md §4 C16"),
  "C02": ("generated well-typed programs vs. an independent reference semantics over the generator's AST; coinductive document equivalence",
@@ -45,7 +45,7 @@ CHECKS = {
          "Only bounds (not equality) on the component count are asserted because the statement leaves open whether equal applications are one instantiation; strict-fragment exclusions as for C02.",
          "DESIGN.md §4 C09"),
  "C03": ("generated and mutated accepted programs x generated base documents; independent structural validator over the re-parsed YAML",
-         "Exploration: every document the C01 generators can make oal emit (typed, loose, shadowing, mutant programs; one in three merged into a generated base) is re-parsed and walked by R-val: $refs resolve inside the document, path variables match required path parameters exactly, response keys are legal, operationIds are distinct, and the YAML parses back to the same OpenAPI value. Collisions of two synthesised operationIds are the known finding F10.",
+         "Exploration: every document the C01 generators can make oal emit (typed, loose, shadowing, mutant programs; one in three merged into a generated base) is re-parsed and walked by R-val: $refs resolve inside the document, path variables match required path parameters exactly, response keys are legal, operationIds are distinct, and the YAML parses back to the same OpenAPI value. Collisions of two synthesised operationIds are the known finding F10; a collision that the synthesis rule does not explain and nobody wrote is a violation of its own. One program in six has a twin resource under the path with / without a trailing slash.",
          "R-val is written from the OpenAPI 3.0 text; `default` is accepted as a Responses key; duplicate ids involving a user-written id are outside the domain and counted.",
          "DESIGN.md §4 C03"),
  "C05": ("metamorphic testing: generated programs x sequences of meaning-preserving rewrites on the generator's AST; document equivalence of original and rewritten sources",
@@ -57,19 +57,19 @@ CHECKS = {
          "Hash seeds are sampled by starting processes, not enumerated; time is not varied (nothing in the pipeline reads the clock).",
          "DESIGN.md §4 C06"),
  "C13": ("process-level differential between the in-process pipeline, the real oal-cli under generated configurations, the playground entry point and the real oal-lsp",
-         "Exploration: source sets accepted or rejected in each phase (lexical, syntax, missing import, import cycle, resolution, kinds, evaluation) are run through the real CLI under options / config file / overriding option / config in a sub-directory, with base absent, valid or malformed and the target pre-existing or not; exit status, target bytes and mtime, stderr location, playground verdict and document, and the language server's diagnostics are compared with the pipeline's verdict and document.",
+         "Exploration: source sets accepted or rejected in each phase (lexical, syntax, missing import, import cycle, resolution, kinds, evaluation) are run through the real CLI under options / config file / overriding option / config in a sub-directory, with base absent, valid or malformed and the target pre-existing or not; exit status, target bytes and mtime, stderr location, playground verdict and document, and the language server's diagnostics are compared with the pipeline's verdict and document (also after a detour: the main module opened with a text that fails in one of five phases and changed back, in full or by two ranged changes). One target name in four has a blank or a non-ASCII letter.",
          "The in-process pipeline (same library code, in-memory loader) supplies the reference verdict; a malformed base is not a source error; LSP timeouts are inconclusive.",
          "DESIGN.md §4 C13"),
  "C14": ("generated base documents x accepted programs; frame equality oracle through Builder::with_base and through oal-cli --base",
-         "Exploration: bases generated over the OpenAPI object model (servers absent/empty/with variables, security, tags, externalDocs, extensions, every non-schema component map, own paths and schemas) are combined with generated programs; everything but paths and components.schemas must equal the base as the tool reads it, and those two must equal the base-less output; one pair in twelve also runs through the real CLI.",
+         "Exploration: bases generated over the OpenAPI object model (servers absent/empty/with variables, security, tags, externalDocs, extensions, every non-schema component map, own paths and schemas) are combined with generated programs; everything but paths and components.schemas must equal the base as the tool reads it, and those two must equal the base-less output; one pair in eight also runs through the real CLI, the base named by option, by configuration file or by option over a configuration file naming another base, and once more after the base file was replaced.",
          "`The base` is the document as deserialised by the openapiv3 model used by the tool itself.",
          "DESIGN.md §4 C14"),
  "C04": ("grammar-aware text fuzzing + exhaustive short token sequences, crash/hang oracle over four front ends",
-         "Exploration: every token-kind sequence up to length 3 (all 54 kinds) / 5 (reduced alphabet), plus hundreds of thousands of generated texts, mutants and nesting templates are pushed through parse, the playground entry point, the real oal-cli and the real oal-lsp; any panic, abort, stack overflow, CPU-limit or wrong exit status is a violation; one LSP text in three goes through a change / close-without-saving / reopen session. It cannot show absence of crashing inputs outside the explored set.",
+         "Exploration: every token-kind sequence up to length 3 (all 54 kinds) / 5 (reduced alphabet), plus hundreds of thousands of generated texts, mutants and nesting templates are pushed through parse, the playground entry point, the real oal-cli and the real oal-lsp; any panic, abort, stack overflow, CPU-limit or wrong exit status is a violation; one LSP text in three goes through a change / close-without-saving / reopen session; ~9 300 self-reference templates (let a = W1(W2(W3(a))), mutual pairs) are enumerated. It cannot show absence of crashing inputs outside the explored set.",
          "Trusts the OS process model (exit status, signals, RLIMIT_CPU) and that the harness's own text splitter is only used for non-triviality counting. Known-finding signatures are matched narrowly (panic file + message head + structural label).",
          "DESIGN.md §4 C04"),
  "C17": ("generated shadowing-heavy multi-module programs served by the real oal-lsp; every cursor position checked against the generator's binding table",
-         "Exploration: for each accepted generated program (names from a 3-4 name pool, qualified and unqualified imports, random trivia with CRLF and astral characters) the real server is asked for definition and references at the start, middle, last character and end of every token and a quarter (quick) or all (thorough) of the other offsets: definitions must be the binder's construct in the binder's module, references exactly the set of uses bound to that binder across modules, and positions outside identifiers must give empty answers.",
+         "Exploration: for each accepted generated program (names from a 3-4 name pool, qualified and unqualified imports, random trivia with CRLF and astral characters) the real server is asked for definition and references at the start, middle, last character and end of every token and a quarter (quick) or all (thorough) of the other offsets: definitions must be the binder's construct in the binder's module, references exactly the set of uses bound to that binder across modules, and positions outside identifiers must give empty answers; at the binding identifier of a parameter / rec binder whatever is returned must be uses of that binder. A generated program that is not accepted is a violation (the strict fragment is well scoped by construction).",
          "Nothing is asserted at binding sites of parameters / rec binders, at qualifier definitions and on the `.` of a qualified name (the statement is silent there). Questions are asked about files on disk; one case in three first opens a module with another layout, lets the server evaluate it and closes it unsaved.",
          "DESIGN.md §4 C17"),
  "C18": ("generated multi-module programs served by the real oal-lsp; every offered rename applied client-side and recompiled, edit set checked against the binding table",
